@@ -286,9 +286,20 @@ class Run:
         self.viol += pre
         thorough = self.tier == "thorough"
         changed = bool(self.gen_changed)
+        # a modelled function whose source text changed never gets only the quick sample: two more seeds
+        try:
+            base = json.load(open(os.path.join(ROOT, "baseline_hashes.json")))
+        except Exception:
+            base = {}
+        self.changed_fns = sorted(k for k, v in self.facts.get("hashes", {}).items() if base.get(k) not in (None, v))
+        seeds = [self.seed] + ([self.seed + 1000, self.seed + 2000] if self.changed_fns and self.tier == "quick" else [])
+        if self.changed_fns:
+            self.say("source text of modelled functions changed since the baseline:", ", ".join(self.changed_fns), "-> seeds", seeds)
         for spec in self.cfg.get("runs", []):
-            cases = self.corpus(spec["family"]) + self.gen_cases(spec["family"], self.tier, self.seed)
-            self.correspond(spec, cases)
+            for sd in seeds:
+                if any(v.concrete for v in self.viol): break
+                cases = (self.corpus(spec["family"]) if sd == self.seed else []) + self.gen_cases(spec["family"], self.tier, sd)
+                self.correspond(spec, cases)
         for fn in self.cfg.get("extra", []):
             fn(self)
         self.say(f"K/O: {self.cov['evaluations']} evaluations, {len(self.cov['distinct'])} distinct non-trivial, "
@@ -401,6 +412,7 @@ class Run:
             regenerated_changed=self.gen_changed,
             regenerated_facts={k: v for k, v in self.facts.items() if k != "hashes"},
             source_hashes=self.facts.get("hashes", {}),
+            changed_since_baseline=getattr(self, "changed_fns", []),
             known_findings_hit=[k["id"] for k in self.known_hits],
         )
         if cfg.get("exhaustive"):
